@@ -386,11 +386,11 @@ def add_constraint(fit, con):
             fit.add_matrix_parameter_constraint(con["pars"], list(con["values"]), np.outer(e, e) * R, matrix_type="cov", relative=bool(con["relative"]))
 
 
-def build(spec, apply_sources=True, apply_params=True):
-    """construct the kafe2 fit described by spec using only public calls"""
+def build(spec, apply_sources=True, apply_params=True, model_function=None):
+    """construct the kafe2 fit described by spec using only public calls; model_function: an already wrapped model function object to use (shared between fits)"""
     kafe2 = k("kafe2")
     t = spec["type"]
-    f = make_model_function(spec)
+    f = make_model_function(spec) if model_function is None else model_function
     common = dict(minimizer=spec.get("minimizer", "iminuit"), dynamic_error_algorithm=spec.get("dea", "nonlinear"))
     if t == "xy":
         fit = kafe2.XYFit([np.asarray(spec["x"], float), np.asarray(spec["y"], float)], f, cost_function=spec["cost"], **common)
